@@ -326,3 +326,57 @@ func strSetByte(sv AbsVal, idx AbsVal) AbsVal {
 	}
 	return AbsVal{k: vByte, set: bs}
 }
+
+// pureHelper: a small module function of the analysed package that neither stores nor calls anything but len/cap
+// and other pure helpers, takes no byte parameter alone (those are byte predicates, evaluated exactly) and
+// returns a bool or small integer: its body is analysed with the caller's abstract values.
+func (e *Engine) pureHelper(fn *ssa.Function) bool {
+	if v, ok := e.pure[fn]; ok {
+		return v
+	}
+	if e.pure == nil {
+		e.pure = map[*ssa.Function]bool{}
+	}
+	e.pure[fn] = false // recursion guard
+	ok := func() bool {
+		if fn == nil || len(fn.Blocks) == 0 || len(fn.Blocks) > 12 || fnPkg(fn) == nil || !core.InModule(fnPkg(fn)) || core.RelPkg(fnPkg(fn)) != e.cfg.Rel {
+			return false
+		}
+		if e.bytePredicate(fn).table != nil {
+			return false
+		}
+		res := fn.Signature.Results()
+		if res.Len() != 1 {
+			return false
+		}
+		if b, isB := res.At(0).Type().Underlying().(*types.Basic); !isB || b.Info()&(types.IsBoolean|types.IsInteger) == 0 {
+			return false
+		}
+		uses := false
+		for _, b := range fn.Blocks {
+			for _, in := range b.Instrs {
+				switch x := in.(type) {
+				case *ssa.Store:
+					if _, spill := x.Addr.(*ssa.Alloc); !spill {
+						return false
+					}
+				case *ssa.MapUpdate, *ssa.Send, *ssa.Go, *ssa.Defer, *ssa.Panic:
+					return false
+				case *ssa.Field, *ssa.FieldAddr:
+					uses = true
+				case *ssa.Call:
+					if bi, isB := x.Call.Value.(*ssa.Builtin); isB && (bi.Name() == "len" || bi.Name() == "cap") {
+						continue
+					}
+					g := x.Call.StaticCallee()
+					if g == nil || !(e.pureHelper(g) || e.bytePredicate(g).table != nil) {
+						return false
+					}
+				}
+			}
+		}
+		return uses // only helpers that look at lexer state need the abstract heap; others stay opaque as before
+	}()
+	e.pure[fn] = ok
+	return ok
+}
